@@ -17,6 +17,19 @@ def jobs(ctx):
             out.append(Job(REL, PKG, H, "VerifC28Produce", {"n": 3, "kind": 0, "style": style, "nounder": 2}, flags=FLAGS, tag="names without letters, style=%d" % style, cost=5,
                            only_kf="name-without-letters", kf_ids=["identifier-non-empty", "identifier-valid"]))
     out.append(Job(REL, PKG, H, "VerifC28Produce", {"n": 2, "kind": 0, "style": 0, "nounder": 1}, flags=FLAGS, tag="twin", twin=True))
+    # the collision rule: two terminals (generated or explicit IDs), a terminal and a nonterminal, two nonterminals
+    CR, CP, CH = "compiler", "compiler", "c28_collide.go"
+    nm = 2 if q else 3
+    for n1 in range(1, nm + 1):
+        for n2 in range(n1, nm + 1):
+            for e1, e2 in ((0, 0), (0, 2), (2, 0), (1, 1), (2, 2)) if (q or n2 == 3) else ((0, 0), (0, 1), (0, 2), (1, 0), (2, 0), (1, 1), (1, 2), (2, 1), (2, 2)):
+                out.append(Job(CR, CP, CH, "VerifC28Tokens", {"n1": n1, "n2": n2, "e1": e1, "e2": e2}, flags=FLAGS, tag="two terminals n=%d,%d ids=%d,%d" % (n1, n2, e1, e2), cost=7.0 ** (n1 + n2) / 20))
+    for n1 in (1, 2):
+        for n2 in (1, 2, 3) if q else (1, 2, 3, 4):
+            for both in (0, 1):
+                out.append(Job(CR, CP, CH, "VerifC28Nonterm", {"n1": n1, "n2": n2, "both": both}, flags=FLAGS, tag="%s n=%d,%d" % ("two nonterminals" if both else "terminal and nonterminal", n1, n2),
+                               cost=7.0 ** (n1 + n2) / 20))
+    out.append(Job(CR, CP, CH, "VerifC28Tokens", {"n1": 1, "n2": 1, "e1": 0, "e2": 0}, flags=FLAGS, tag="collision twin", twin=True))
     return out
 
 
@@ -24,9 +37,12 @@ def describe(ctx):
     return {
         "explanation": "ident.Produce and ident.IsValid (incl. strings.Builder, strings.ToUpper, unicode case tables, the charName map, fmt %02x) run on symbol names whose bytes are "
                        "solver variables: unquoted identifiers matching the tm lexer's ID pattern, 'quoted' and \"quoted\" names over printable ASCII, in all four casing styles. "
-                       "The produced identifier must be non-empty, valid in all targets (IsValid) and in the requested casing style.",
-        "bounds": {"identifiers": "1..3 bytes quick, 4 thorough, every byte admitted by [a-zA-Z_]([a-zA-Z_\\-0-9]*[a-zA-Z_0-9])?", "quoted names": "1..2 (3) printable ASCII bytes except the quote and backslash"},
-        "outside": ["escape sequences inside quoted names", "non-ASCII names", "the collision rule (compiler/resolver.go): two symbols with the same identifier -- exercised only incidentally by the corpus compilations"],
+                       "The produced identifier must be non-empty, valid in all targets (IsValid) and in the requested casing style. "
+                       "Collision rule: compiler.resolver.addToken/addNonterms (with ident.Produce) on two distinct symbol names over an alphabet with letters of both cases, a digit, "
+                       "'_' and '-' (and explicit token IDs over A, B, _): whenever no error is recorded the two symbols must have different identifiers.",
+        "bounds": {"identifiers": "1..3 bytes quick, 4 thorough, every byte admitted by [a-zA-Z_]([a-zA-Z_\\-0-9]*[a-zA-Z_0-9])?", "quoted names": "1..2 (3) printable ASCII bytes except the quote and backslash",
+                   "collisions": "two names of 1..2 (3) bytes over {a,b,A,B,_,-,1}, explicit IDs of 0..2 bytes over {A,B,_}; nonterminal names up to 3 (4) bytes"},
+        "outside": ["escape sequences inside quoted names", "non-ASCII names", "collisions among more than two symbols or over a larger alphabet", "the other places that register symbols (syntax loader: collectNonterms, template parameters)"],
         "trusted": ["go/ssa", "symgo executor (engine model of fmt.Sprintf)", "z3"],
         "assumptions": [],
     }
